@@ -249,6 +249,9 @@ func genWire(r *Rand, g GenCfg) Plan {
 		for v := 0; v < 16; v++ {
 			add(XStep{Op: "sig", Tok: 0, Kind: "alias_header", Val: v})
 		}
+		for v := 0; v < 14; v++ {
+			add(XStep{Op: "sig", Tok: v % 2, Kind: "sig_shape", Val: v})
+		}
 		if g.Index%4 == 2 {
 			add(XStep{Op: "sig", Tok: r.Intn(2), Kind: "churn", Val: r.Intn(3)})
 		}
